@@ -259,6 +259,10 @@ type Region struct {
 	// events and stores are reset, and the run proper begins.
 	PreWorld World
 	AtStart  func(r *Run, fr *frame)
+	// StalePrologue: the run proper is an arbitrary iteration of the loop at Start, so what the prologue read
+	// from memory that the loop (or code called from it) may assign is not what memory holds now. Non-pointer
+	// cells of observed objects that the prologue reads lazily are named old(...) and forgotten at Start.
+	StalePrologue bool
 	// Prepare runs before parameters are bound (to create objects for them).
 	Prepare  func(r *Run)
 	lastObjs map[string]*Obj
@@ -298,6 +302,80 @@ type Run struct {
 	mainWorld World
 	topFrame  *frame
 	alias     map[string]string // renamed loop variable -> the name the rule uses
+	stale     []staleCell
+}
+
+// markOld wraps every occurrence of one of the names in x (as a whole name) in old(...).
+func markOld(x string, names map[string]bool) string {
+	isId := func(c byte) bool {
+		return c == '_' || c >= '0' && c <= '9' || c >= 'a' && c <= 'z' || c >= 'A' && c <= 'Z'
+	}
+	for n := range names {
+		from := 0
+		for {
+			i := strings.Index(x[from:], n)
+			if i < 0 {
+				break
+			}
+			i += from
+			j := i + len(n)
+			if (i > 0 && (isId(x[i-1]) || x[i-1] == '.')) || (j < len(x) && isId(x[j])) || strings.HasSuffix(x[:i], "old(") {
+				from = j
+				continue
+			}
+			x = x[:i] + "old(" + n + ")" + x[j:]
+			from = j + 5
+		}
+	}
+	return x
+}
+
+func renameVal(v Val, f func(string) string) Val {
+	switch x := v.(type) {
+	case VSym:
+		return VSym{f(x.Name), x.Off}
+	case VLin:
+		t := map[string]int64{}
+		for k, c := range x.Terms {
+			t[f(k)] += c
+		}
+		return VLin{t, x.Off}
+	case VOpq:
+		return VOpq{f(x.Name)}
+	case VAtom:
+		return VAtom{Key: f(x.Key), Neg: x.Neg}
+	case VIface:
+		if x.V == nil {
+			return x
+		}
+		return VIface{Dyn: x.Dyn, V: renameVal(x.V, f)}
+	case VStruct:
+		fs := map[string]Val{}
+		for k, fv := range x.Fields {
+			fs[k] = renameVal(fv, f)
+		}
+		return VStruct{T: x.T, Fields: fs}
+	case VTuple:
+		out := make(VTuple, len(x))
+		for i, e := range x {
+			if e != nil {
+				out[i] = renameVal(e, f)
+			}
+		}
+		return out
+	case VSlice:
+		var l Val
+		if x.Len != nil {
+			l = renameVal(x.Len, f)
+		}
+		return VSlice{Name: f(x.Name), Len: l}
+	}
+	return v
+}
+
+type staleCell struct {
+	o    *Obj
+	path string
 }
 
 // the names of loop variables that rules refer to, with their kinds
@@ -499,6 +577,24 @@ func (r *Run) exec(fr *frame, b *ssa.BasicBlock, skipPhis bool) (string, []Val) 
 			// end of the prologue: the run proper starts here
 			r.entered = true
 			r.w = r.mainWorld
+			if len(r.stale) > 0 {
+				// what the prologue read from assignable memory is now "the old value": forget the cells and
+				// rename the values that were computed from them
+				names := map[string]bool{}
+				for _, sc := range r.stale {
+					delete(sc.o.cells, sc.path)
+					names[sc.o.Name+sc.path] = true
+				}
+				ren := func(x string) string { return markOld(x, names) }
+				for k, v := range fr.env {
+					fr.env[k] = renameVal(v, ren)
+				}
+				for _, o := range r.objs {
+					for k, v := range o.cells {
+						o.cells[k] = renameVal(v, ren)
+					}
+				}
+			}
 			// loop variables are given by name; a variable that was renamed is matched by its kind when
 			// that is unambiguous (one unmatched name and one unmatched variable of the same kind)
 			r.alias = map[string]string{}
@@ -790,6 +886,11 @@ func (r *Run) lazy(o *Obj, path string, t types.Type) Val {
 		}
 		return vs
 	}
+	if r.reg.StalePrologue && r.reg.Start != nil && !r.entered && !o.Local {
+		if _, isPtr := t.Underlying().(*types.Pointer); !isPtr {
+			r.stale = append(r.stale, staleCell{o, path})
+		}
+	}
 	if isInt(t) {
 		return VSym{Name: o.Name + path}
 	}
@@ -845,6 +946,29 @@ func (r *Run) store(o *Obj, path string, v Val) {
 	}
 }
 
+// isParamSpill: the cell go/ssa gives a parameter or named result that a closure (a defer, say) captures; it is the
+// variable itself, not an object the function creates
+func isParamSpill(a *ssa.Alloc) bool {
+	fn := a.Parent()
+	if fn == nil || a.Comment == "" {
+		return false
+	}
+	for _, p := range fn.Params {
+		if p.Name() == a.Comment {
+			return true
+		}
+	}
+	if sig := fn.Signature; sig != nil {
+		for i := 0; i < sig.Results().Len(); i++ {
+			if n := sig.Results().At(i).Name(); n != "" && n != "_" && n == a.Comment {
+				// only the declaration-time cell: named results are allocated in the entry block
+				return a.Block() == fn.Blocks[0]
+			}
+		}
+	}
+	return false
+}
+
 func (r *Run) step(fr *frame, in ssa.Instruction) {
 	switch x := in.(type) {
 	case *ssa.Alloc:
@@ -856,7 +980,7 @@ func (r *Run) step(fr *frame, in ssa.Instruction) {
 		if nm, ok := r.reg.ObserveLocals[x.Comment]; ok && fr.fn == r.reg.Fn {
 			// a local the rule wants to watch (a named result that is built up in place)
 			o = r.NewObj(nm, false)
-		} else if x.Heap && x.Comment != "varargs" {
+		} else if x.Heap && x.Comment != "varargs" && !isParamSpill(x) {
 			// escaping allocation (returned / stored): observed like a parameter object
 			o = r.NewObj("new:"+name, false)
 		} else {
